@@ -35,10 +35,19 @@ def flat(gs: list[list[OTelEvent]]) -> list[OTelEvent]:
 def maxend(g: list[OTelEvent]) -> int:
     return 0 if len(g) == 0 else (g[0].end_timestamp if len(g) == 1 else max(maxend(g[:-1]), g[-1].end_timestamp))
 
+def argmaxend(g: list[OTelEvent]) -> int:
+    return 0 if len(g) <= 1 else (argmaxend(g[:-1]) if maxend(g[:-1]) >= g[-1].end_timestamp else len(g) - 1)
+
 def chains(G: list[list[OTelEvent]]) -> list[list[OTelEvent]]:
     return ([] if len(G) == 0 else ([G[0]] if len(G) == 1 else (
         chains(G[:-1]) + [G[-1]] if maxend(flat(G[:-1])) < G[-1][0].start_timestamp
         else chains(G[:-1])[:-1] + [chains(G[:-1])[-1] + G[-1]])))
+
+def is_only_root(vs: list[OTelEvent], p: int) -> bool:
+    return vs[p].parent_event_id is None and all(vs[q].parent_event_id is not None for q in range(len(vs)) if q != p)
+
+def listed_child(job: dict[str, OTelEvent], cs: list[str], S: set[str]) -> bool:
+    return any(job[c].event_type in S for c in cs)
 
 def sorted_by_start(g: list[OTelEvent]) -> bool:
     return all(g[a].start_timestamp <= g[b].start_timestamp for a in range(len(g)) for b in range(a, len(g)))
@@ -67,12 +76,76 @@ CONTRACTS = {
         "loops": {0: {"index": "i", "invariant": {
             "chains": "ordered_groups_async == chains(ordered_groups[:i + 1])",
             "runmax": "max_timestamp == maxend(flat(ordered_groups[:i + 1]))",
-        }}},
+        }, "hints_entry": ["use maxend_attained(ordered_groups[0])"],
+           "hints_end": ["flat(ordered_groups[:i + 1]) == flat(ordered_groups[:i]) + ordered_groups[i]",
+                         "use maxend_app(flat(ordered_groups[:i]), ordered_groups[i])",
+                         "use maxend_attained(ordered_groups[i])"],
+        }},
+
+        "hide": ["sorted_by_start"],
         "pure": True,
+    },
+    "get_root_event_from_event_id_to_event_map": {
+        "raises": {"ValueError": "not any(is_only_root(list(event_id_to_event_map.values()), p) for p in range(len(event_id_to_event_map)))"},
+        "ensures": {
+            "is_root": "result.parent_event_id is None",
+            "member": "any(result is e for e in event_id_to_event_map.values())",
+            "unique": "all(e is result or e.parent_event_id is not None for e in event_id_to_event_map.values())",
+        },
+        "pure": True,
+    },
+    "update_event_type_based_on_children": {
+        "modifies": ["OTelEvent.event_type"],
+        "raises": {"KeyError": "otel_event.child_event_ids is not None and any("
+                               "otel_event.child_event_ids[p] not in otel_events_job and all("
+                               "otel_event.child_event_ids[q] in otel_events_job and "
+                               "otel_events_job[otel_event.child_event_ids[q]].event_type not in event_type_map_information.child_event_types "
+                               "for q in range(p)) for p in range(len(otel_event.child_event_ids)))"},
+        "ensures": {
+            # "a span is renamed when a listed child type is present"
+            "renamed": "otel_event.event_type == (event_type_map_information.mapped_event_type "
+                       "if otel_event.child_event_ids is not None and old(listed_child(otel_events_job, otel_event.child_event_ids, event_type_map_information.child_event_types)) "
+                       "else old(otel_event.event_type))",
+            "frame": "forall(lambda e: e is otel_event or e.event_type == old(e.event_type), 'OTelEvent')",
+        },
+        "loops": {0: {"index": "i", "invariant": {
+            "none_yet": "all(otel_event.child_event_ids[q] in otel_events_job and otel_events_job[otel_event.child_event_ids[q]].event_type "
+                        "not in event_type_map_information.child_event_types for q in range(i))",
+            "heap_same": "forall(lambda e: e.event_type == old(e.event_type), 'OTelEvent')",
+        }}},
     },
 }
 
-ORDER = ["order_groups_by_start_timestamp", "sequence_groups_of_otel_events_asynchronously"]
+LEMMA_MAXEND_UPPER = {
+    "name": "maxend_upper",
+    "forall": {"g": "list[OTelEvent]", "j": "int"},
+    "requires": ["0 <= j < len(g)"],
+    "ensures": "g[j].end_timestamp <= maxend(g)",
+    "induction": "g",
+    "hints": ["len(g) <= 1 or maxend(g) >= maxend(g[:-1])", "j >= len(g) - 1 or g[:-1][j] is g[j]"],
+    "triggers": ["(g[j], maxend(g))"],
+}
+LEMMA_MAXEND_ATTAINED = {
+    "name": "maxend_attained",
+    "forall": {"g": "list[OTelEvent]"},
+    "requires": ["len(g) > 0"],
+    "ensures": "0 <= argmaxend(g) < len(g) and g[argmaxend(g)].end_timestamp == maxend(g)",
+    "induction": "g",
+    "triggers": ["argmaxend(g)"],
+}
+LEMMA_MAXEND_APP = {
+    "name": "maxend_app",
+    "forall": {"a": "list[OTelEvent]", "b": "list[OTelEvent]"},
+    "requires": ["len(a) > 0", "len(b) > 0"],
+    "ensures": "maxend(a + b) == max(maxend(a), maxend(b))",
+    "hints": ["(a + b)[argmaxend(a)].end_timestamp <= maxend(a + b)",
+              "(a + b)[len(a) + argmaxend(b)].end_timestamp <= maxend(a + b)"],
+    "explicit": True,
+}
+
+ORDER = ["order_groups_by_start_timestamp", LEMMA_MAXEND_UPPER, LEMMA_MAXEND_ATTAINED, LEMMA_MAXEND_APP,
+         "sequence_groups_of_otel_events_asynchronously", "get_root_event_from_event_id_to_event_map",
+         "update_event_type_based_on_children"]
 
 
 def setup(V):
